@@ -83,17 +83,31 @@ class CipherScenario(Scenario):
                     "n": rng.randrange(1, 40), "via": rng.choice(["keyfile", "field", "provider"])}
         if st.vault and r < st.h["p_tamper"] + 0.3:
             return {"op": "decrypt", "item": rng.randrange(len(st.vault)), "via": rng.choice(["keyfile", "provider", "field"]),
-                    "other_key": rng.random() < 0.25}
+                    "other_key": rng.random() < 0.25, "reuse": rng.random() < 0.5}
         if r > 0.93:
             return {"op": "restart"}
         pt = _plaintext(rng)
         via = rng.choice(["keyfile", "keyfile", "provider", "field"])
         return {"op": "encrypt", "key": rng.choice(KEYPATHS), "method": rng.choice(["aes", "aes", "xor", "best", "best"]), "pt": pt.hex(),
-                "via": via, "as_str": rng.random() < 0.5, "warm": rng.choice([0, 0, 1, 2, 3])}
+                "via": via, "as_str": rng.random() < 0.5, "warm": rng.choice([0, 0, 1, 2, 3]), "reuse": rng.random() < 0.5}
+
+    def provider(self, st, key, method, reuse, rec):
+        """A provider object for (key, method): a new one, or the long-lived one of this session ("across provider
+        objects": what one object did before must not matter)."""
+        if not reuse:
+            return AesProvider(key) if method == "aes" else XorProvider(key)
+        provs = st.__dict__.setdefault("provs", {})
+        k = (bytes(key), method)
+        if k not in provs:
+            provs[k] = AesProvider(key) if method == "aes" else XorProvider(key)
+        else:
+            rec.probe("provider-object-reused:" + method)
+        return provs[k]
 
     def apply(self, st, op, rec):
         k = op["op"]
         if k == "restart":
+            st.provs = {}
             st.session += 1
             seams.reset_process_state()
             rec.log("restart")
@@ -145,7 +159,7 @@ class CipherScenario(Scenario):
             if key is None or method == "best":
                 rec.log("encrypt", "skip")
                 return
-            prov = AesProvider(key) if method == "aes" else XorProvider(key)
+            prov = self.provider(st, key, method, op.get("reuse"), rec)
             ct, err = self._call(lambda: prov.encrypt(pt))
             sv = SecureValue(method, ct) if err is None else None
         else:
@@ -214,7 +228,7 @@ class CipherScenario(Scenario):
                     return kf.decrypt(sv)
             out, err = self._call(run)
         elif via == "provider":
-            prov = AesProvider(key) if it["method"] == "aes" else XorProvider(key)
+            prov = self.provider(st, key, it["method"], op.get("reuse"), rec)
             out, err = self._call(lambda: prov.decrypt(it["ct"]))
         else:
             cfg = st.schema(key_filename=kpath)
